@@ -6,5 +6,5 @@ if [ -n "$(git -C /repo status --porcelain)" ]; then echo "/repo not clean"; exi
 if ! git -C /repo apply --check /verif/.pending/$P/$M/patch.diff 2>/dev/null; then echo "=== $P $M: PATCH DOES NOT APPLY"; exit 0; fi
 git -C /repo apply --3way /verif/.pending/$P/$M/patch.diff
 echo "=== $P $M vs $C"
-VERIF_BUDGET_S=$B ./check $C quick 2>&1 | grep -v "^KNOWN" | cut -c1-260 | head -7
+VERIF_BUDGET_S=$B ./check $C quick 2>&1 | grep -v "^KNOWN" | cut -c1-260 | head -9
 git -C /repo reset -q --hard
